@@ -12,7 +12,16 @@ pub struct Item { pub keyspace: Keyspace, pub key: UserKey, pub value: UserValue
 //@include prelude/handles.rs
 //@include prelude/paths.rs
 //@path std::sync::atomic::Ordering => atomic_shim::Ordering
-//@world is_deleted.load seqno.next seqno.get tree.insert tree.remove tree.remove_weak tree.clear drop
+//@guards .get_writer(
+//@world is_deleted.load seqno.next seqno.get tree.insert tree.remove tree.remove_weak tree.clear drop writer.lock
+
+//@extract-type src/journal/mod.rs :: Journal
+//@extract src/journal/mod.rs :: Journal :: get_writer world props=C06+C02+C13
+//@contract-file fn/journal_get_writer.c
+//@end
+//@extract src/journal/mod.rs :: Journal :: persist world props=C09+C13
+//@contract-file fn/journal_persist.c
+//@end
 
 //@extract src/snapshot_tracker.rs :: SnapshotTracker :: publish world spec_only
 //@contract-file fn/tracker_publish.c
